@@ -1,6 +1,7 @@
 package main
 
 import (
+	"sync"
 	"bufio"
 	"bytes"
 	"fmt"
@@ -61,7 +62,14 @@ func sigKey(fn *ssa.Function) string {
 	return sb.String()
 }
 
+var knownMu sync.Mutex
+
+// foldMu serialises helper folding: the vendored ssa additions keep package-level bookkeeping.
+var foldMu sync.Mutex
+
 func loadKnownFuncs() map[string]bool {
+	knownMu.Lock()
+	defer knownMu.Unlock()
 	if knownFuncs != nil {
 		return knownFuncs
 	}
@@ -119,6 +127,8 @@ func localFuncsWithBodies(m *Module) []*ssa.Function {
 }
 
 func (m *Module) foldNewHelpers() error {
+	foldMu.Lock()
+	defer foldMu.Unlock()
 	known := loadKnownFuncs()
 	if len(known) == 0 || os.Getenv("KAFCHECK_NOFOLD") != "" {
 		return nil
@@ -173,7 +183,7 @@ func (m *Module) foldNewHelpers() error {
 	isStandIn := map[*ssa.Function]bool{}
 	for old, f := range m.Renamed {
 		isStandIn[f] = true
-		standInName[f] = old
+		standInName.Store(f, old)
 	}
 	cands := map[*ssa.Function]bool{}
 	for _, fn := range namedLocalFuncs(m) {
